@@ -741,11 +741,6 @@ def run(ctx):
         "counter_view_from_upstreams states the counter map relative to the channel map of GetNSQDStats (itself described by "
         "channels_merge over the upstreams' answers); that two different (topic, channel) pairs never share a key "
         "`topic:channel` (names without ':') is not proved and not needed for the statement as given",
-        "which topics `?inactive=true` lists (exactly those without a non-null producer on any responding nsqlookupd, each with "
-        "the union of the channels) is tied by correspondence and the independent oracle, not by a theorem; the theorem is "
-        "inactive_warning (a failed per-topic answer gives a warning or a 502)",
-        "the merged channel list of /api/topics/:t (TopicStats.Add's channel part) has no theorem: it is compared by the "
-        "correspondence (views + add streams) and recomputed by the oracle on every answer",
         "/info without broadcast_address is generated together with a missing http_port only (address ':0'); hostnames of "
         "configured nsqds are 127.0.0.1 in the harness (Nsqd.host)",
         "sort.Sort returns a sorted permutation when Less is a strict weak order (library contract; order_by_host proves the "
